@@ -526,7 +526,9 @@ def render_tree(pkg: Package, root: str) -> dict:
         base = root + "/" + p.dirname
         if base + "/_package.yml" in files:
             return
-        rel = lambda q: posixpath.relpath(root + "/" + q.dirname, base)      # dirnames may be nested ("archive/v0/pkg")
+        # (dirnames may be nested ("archive/v0/pkg"); a package marked via_link is named through the symbolic link <dirname>_link,
+        #  which whoever sets the mark has to create next to the directory)
+        rel = lambda q: posixpath.relpath(root + "/" + q.dirname + ("_link" if getattr(q, "via_link", False) else ""), base)
         files[base + "/_package.yml"] = render_manifest(
             p, [rel(i) for i in p.imports],
             [(l, rel(v)) for l, v in p.versions] + ([(p.self_version, "../" + p.dirname.rsplit("/", 1)[-1])] if getattr(p, "self_version", "") else []))
